@@ -236,7 +236,9 @@ fn eval_case(c: &Value) -> (Value, Vec<String>) {
                 Ok(v) => {
                     let g: Vec<(u64, u64)> = v.iter().map(|x| (x.0 as u64, x.1 as u64)).collect();
                     got = json!({"offsets": g.iter().take(8).collect::<Vec<_>>(), "n": g.len()});
-                    if g != want {
+                    // a block may be reported up to its padded end or clipped at the end of the object: both describe the same octets
+                    let same = g.len() == want.len() && g.iter().zip(want.iter()).all(|(a, b)| a.0 == b.0 && (a.1 == b.1 || a.1 == b.1.min(f)));
+                    if !same {
                         let first = g.iter().zip(want.iter()).position(|(a, b)| a != b);
                         mism.push(format!("source block boundaries differ from Partition[Kt, Z] of RFC 6330 4.4.1.2 (F = {f}, first difference at block {first:?}: {:?} vs {:?})",
                                           first.map(|i| g[i]), first.map(|i| want[i])));
